@@ -30,6 +30,7 @@ from spyne.error import ValidationError
 
 from spyne.model import ByteArray, String, File, ComplexModelBase, Array, \
     SimpleModel, Any, AnyDict, Unicode
+from spyne.model.complex import XmlModifier
 
 from spyne.protocol.dictdoc import DictDocument
 
@@ -106,12 +107,19 @@ class SimpleDictDocument(DictDocument):
     def _to_native_values(self, cls, member, orig_k, k, v, req_enc, validator):
         value = []
 
+        member_type = member.type
+        if issubclass(member_type, XmlModifier):
+            # XmlAttribute / XmlData only say where the value goes in an xml
+            # document. Here it's a plain member of the wrapped type, read and
+            # validated as such.
+            member_type = member_type.type
+
         for v2 in v:
             # some wsgi implementations pass unicode strings, some pass str
             # strings. we get unicode here when we can and should.
             if v2 is not None and req_enc is not None \
-                                    and not issubclass(member.type, String) \
-                                    and issubclass(member.type, Unicode) \
+                                    and not issubclass(member_type, String) \
+                                    and issubclass(member_type, Unicode) \
                                     and not isinstance(v2, six.text_type):
                 try:
                     v2 = v2.decode(req_enc)
@@ -121,29 +129,29 @@ class SimpleDictDocument(DictDocument):
             # validate raw data (before deserialization)
             try:
                 if (validator is self.SOFT_VALIDATION and not
-                                  member.type.validate_string(member.type, v2)):
+                                  member_type.validate_string(member_type, v2)):
                     raise ValidationError([orig_k, v2])
 
             except TypeError:
                 raise ValidationError([orig_k, v2])
 
-            cls_attrs = self.get_cls_attrs(member.type)
+            cls_attrs = self.get_cls_attrs(member_type)
             v2 = self._parse(cls_attrs, v2)
 
             # deserialize to native type
-            if issubclass(member.type, File):
+            if issubclass(member_type, File):
                 if isinstance(v2, File.Value):
                     native_v2 = v2
                 else:
-                    native_v2 = self.from_unicode(member.type, v2,
+                    native_v2 = self.from_unicode(member_type, v2,
                                                            self.binary_encoding)
 
-            elif issubclass(member.type, ByteArray):
-                native_v2 = self.from_unicode(member.type, v2,
+            elif issubclass(member_type, ByteArray):
+                native_v2 = self.from_unicode(member_type, v2,
                                                            self.binary_encoding)
             else:
                 try:
-                    native_v2 = self.from_unicode(member.type, v2)
+                    native_v2 = self.from_unicode(member_type, v2)
                 except ValidationError as e:
                     ns = "%s.%s" % (cls.get_namespace(), cls.get_type_name())
                     raise ValidationError(e.faultstring,
@@ -152,7 +160,7 @@ class SimpleDictDocument(DictDocument):
             # validate native data (after deserialization)
             native_v2 = self._sanitize(cls_attrs, native_v2)
             if validator is self.SOFT_VALIDATION:
-                if not member.type.validate_native(member.type, native_v2):
+                if not member_type.validate_native(member_type, native_v2):
                     raise ValidationError([orig_k, v2])
 
             value.append(native_v2)
